@@ -555,6 +555,39 @@ def _subterm_ids(e):
     return hit[1]
 
 
+class CountList:
+    """CountP(l, params...): number of elements of l satisfying the predicate of a ForallList, defined by recursion from the END of the list (so
+    appending unfolds by definition); 0 <= CountP(l) <= length(l); the filter lemma  length([x for x in l if P(x)]) == CountP(l)  (induction on l)
+    is applied by the comprehension rule of the engine."""
+    _made = {}
+
+    def __init__(self, base):
+        self.base = base
+        self.name = 'Count_' + base.name[4:]
+        l = z3.Const('cl_', VL)
+        ps = [z3.Const(f'clp{i}_', srt) for i, srt in enumerate(base.param_sorts)]
+        self.fn = z3.RecFunction(self.name, VL, *base.param_sorts, IntS)
+        z3.RecAddDefinition(self.fn, [l] + ps, self._body(l, *ps))
+        UNFOLD[self.name] = self._body
+        LEMMA_HOOKS.append(self._hook)
+        CountList._made[self.name] = self
+
+    def _body(self, l, *ps):
+        n = length(l)
+        return z3.If(n <= 0, 0, self.fn(take(l, n - 1), *ps) + z3.If(self.base.pred(nth(l, n - 1), *ps), 1, 0))
+
+    def __call__(self, l, *ps):
+        return self.fn(l, *ps)
+
+    def _hook(self, e, n):
+        if n == self.name:
+            l = e.arg(0)
+            ps = [e.arg(i) for i in range(1, e.num_args())]
+            # bounds, and: nothing counted iff no element satisfies P (both by induction on l)
+            return [z3.And(e >= 0, e <= length(l)), z3.Implies(VL.is_nil(l), e == 0)]
+        return []
+
+
 # elimination instances for nth terms: generated per query for the All_* facts present
 def forall_elim_facts(exprs):
     alls = collect_apps(exprs, set(ForallList._made))
